@@ -14,6 +14,10 @@ def leftovers(r):
         if isinstance(x, (ast.Tuple, ast.List, ast.Dict)):
             out.append(type(x).__name__)
         elif isinstance(x, ast.Subscript):
+            # an element of a collection FIELD of a record (e.jets[0]) is data access, not a
+            # projection out of a package: no package key in the corpora is called like a field
+            if isinstance(x.value, ast.Attribute) and x.value.attr in ("jets", "tracks", "eles"):
+                continue
             out.append("Subscript")
         elif isinstance(x, ast.Call) and isinstance(x.func, ast.Lambda):
             out.append("called-lambda")
